@@ -331,7 +331,25 @@ pub fn mounts(spec: &Value, w: &mut dyn std::io::Write) -> u64 {
     };
     if let Some(ms) = spec.get("muts").and_then(Value::as_array) {
         for mu in ms {
-            if let Some(c) = mu.get("combo").and_then(Value::as_array) {
+            if let Some(cl) = mu.get("clusters").and_then(Value::as_array) {
+                // total-sector values that give exactly N data clusters (boundaries of the FAT widths)
+                if let Some(g) = &base_geo {
+                    for nv in cl {
+                        let nclu = nv.as_u64().unwrap_or(0);
+                        for r in [0, g.spc - 1] {
+                            let t = g.first_data_sector + nclu * g.spc + r;
+                            if t > 0xFFFF_FFFF {
+                                continue;
+                            }
+                            if !g.layout32 && t < 0x10000 {
+                                one(&[("ts16".to_string(), t), ("ts32".to_string(), 0)], None, w);
+                            } else {
+                                one(&[("ts16".to_string(), 0), ("ts32".to_string(), t)], None, w);
+                            }
+                        }
+                    }
+                }
+            } else if let Some(c) = mu.get("combo").and_then(Value::as_array) {
                 let v: Vec<(String, u64)> = c.iter().map(|p| (p[0].as_str().unwrap_or("").to_string(), p[1].as_u64().unwrap_or(0))).collect();
                 one(&v, None, w);
             } else if let Some(f) = mu.get("f").and_then(Value::as_str) {
@@ -450,6 +468,78 @@ pub fn dirs(spec: &Value, w: &mut dyn std::io::Write) -> u64 {
         m.insert("sl".into(), json!(sj));
         m.insert("r".into(), res);
         emit(w, m);
+    }
+    n
+}
+
+// ------------------------------------------------------------------------------------------------
+// C06 thorough: every sector count of a range for default options, through the boot-sector hook (no I/O)
+
+#[cfg(fatfs_verif)]
+pub fn fmtsweep(lo: u64, hi: u64, w: &mut dyn std::io::Write) -> u64 {
+    use fatfs::FormatVolumeOptions;
+    // layout key of a boot sector: everything but the total sector count
+    fn key(b: &[u8; 512]) -> [u8; 40] {
+        let mut k = [0u8; 40];
+        k[..8].copy_from_slice(&b[11..19]); // bps, spc, rsvd, nfats, root entries
+        k[8] = b[21];
+        k[9..11].copy_from_slice(&b[22..24]); // sectors per fat 16
+        k[11..31].copy_from_slice(&b[36..56]); // FAT32 extension (spf32, flags, version, root cluster, fsinfo, backup)
+        k[31] = (b[19] != 0 || b[20] != 0) as u8; // which total-sectors field is used
+        k
+    }
+    let opts = FormatVolumeOptions::new();
+    let mut n = 0u64;
+    let mut run: Option<(u64, u64, Option<([u8; 512], [u8; 40])>, [u8; 512], Value)> = None; // lo, hi, first (bytes,key), last bytes, result
+    let mut flush = |r: &(u64, u64, Option<([u8; 512], [u8; 40])>, [u8; 512], Value), w: &mut dyn std::io::Write, n: &mut u64| {
+        let mut m = Map::new();
+        m.insert("op".into(), json!("fmtrun"));
+        m.insert("pid".into(), json!(format!("sweep-{}", r.0)));
+        m.insert("i".into(), json!(*n + 1));
+        m.insert("lo".into(), limbs(r.0));
+        m.insert("hi".into(), limbs(r.1));
+        m.insert("r".into(), r.4.clone());
+        if let Some((first, _)) = &r.2 {
+            let mut a = Image::new(512);
+            a.write_at(0, first);
+            let mut b = Image::new(512);
+            b.write_at(0, &r.3);
+            m.insert("blo".into(), bpb_json(&a));
+            m.insert("bhi".into(), bpb_json(&b));
+        }
+        emit(w, m);
+        *n += 1;
+    };
+    let mut t = lo;
+    while t <= hi {
+        let r = catch_unwind(AssertUnwindSafe(|| fatfs::verif_format_boot_sector(&opts, t as u32)));
+        let (res, bytes): (Value, Option<[u8; 512]>) = match r {
+            Err(_) => (json!({"k":"panic","msg":panic_msg()}), None),
+            Ok(Err(fatfs::Error::InvalidInput)) => (json!({"k":"err","e":"InvalidInput"}), None),
+            Ok(Err(_)) => (json!({"k":"err","e":"Other"}), None),
+            Ok(Ok((b, _))) => (json!({"k":"ok"}), Some(b)),
+        };
+        let k = bytes.as_ref().map(key);
+        let same = match &run {
+            Some((_, _, first, _, rr)) => *rr == res && first.as_ref().map(|f| f.1) == k,
+            None => false,
+        };
+        if same {
+            let r = run.as_mut().unwrap();
+            r.1 = t;
+            if let Some(b) = bytes {
+                r.3 = b;
+            }
+        } else {
+            if let Some(r) = run.take() {
+                flush(&r, w, &mut n);
+            }
+            run = Some((t, t, bytes.map(|b| (b, key(&b))), bytes.unwrap_or([0; 512]), res));
+        }
+        t += 1;
+    }
+    if let Some(r) = run.take() {
+        flush(&r, w, &mut n);
     }
     n
 }
